@@ -196,6 +196,25 @@ class P(Packet):
          described=[D("length", "int", 1, lambda t, r: len(t["d"]))], tracked={"d": "bytes"},
          encode=lambda hs: b"\x07" + _i(hs[0][0]["length"]) + hs[0][1]["d"],
          raw=lambda ts, ch: b"\x07" + _i(len(ts[0]["d"])) + ts[0]["d"]),
+    # ... and the same with an explicit value that EQUALS the field's default while every other field of the prototype is
+    # at its default too: the prototype compares equal to a freshly built packet although it is not one
+    dict(name="protozero", root="P", nhosts=1, hosts=lambda p: [p.inner],
+         src="""
+class Inner(Packet):
+    __bisturi__ = OPTIONS
+    length = Int(1).describe(AutoLength('d'))
+    d = Data(length, default=b'xy')
+
+class P(Packet):
+    __bisturi__ = OPTIONS
+    tag = Int(1, default=7)
+    inner = Ref(Inner(length=0))
+""",
+         ctor=lambda mod, kws, ch: mod.P(inner=mod.Inner(**kws[0])) if kws[0] else mod.P(),
+         default_explicit={"length": 0},
+         described=[D("length", "int", 1, lambda t, r: len(t["d"]))], tracked={"d": "bytes"},
+         encode=lambda hs: b"\x07" + _i(hs[0][0]["length"]) + hs[0][1]["d"],
+         raw=lambda ts, ch: b"\x07" + _i(len(ts[0]["d"])) + ts[0]["d"]),
     # a described bit field
     dict(name="bitsdesc", root="P", nhosts=1, hosts=_host_self,
          src="""
@@ -284,7 +303,7 @@ class AutoEngine(Engine):
     chunks = {"quick": 40, "thorough": 1000}
     rule = ("each case is a Chooser-generated history of 3..14 (one run in four: up to 45) operations (NEW with/without the described "
             "keyword, SET_TRACKED, in-place mutation of a tracked list, SET_DESCRIBED incl. values that do not fit and falsy ones, DEL_DESCRIBED, READ, PACK, UNPACK, REPARSE) "
-            "on 1..3 (or up to 6) live packets of one of thirteen freshly defined declarations (AutoLength / Auto on Int, Data and Bits; two "
+            "on 1..3 (or up to 6) live packets of one of fourteen freshly defined declarations (AutoLength / Auto on Int, Data and Bits; two "
             "described fields; a described field after its tracked field, in a nested packet, in element packets of a repeated Ref, "
             "aligned, chained Autos, tracking a list of packets, explicit value inherited from a Ref prototype, a recursive box whose Auto reads its children's described field) under a drawn "
             "code-generation option set; distinct = digest of (declaration, options, abstract operation list); non-trivial = the "
